@@ -344,25 +344,16 @@ class Ev:
             return self.param(fn, v, [], env)
         if v.kind == "field" and v.kids:
             # Option/Result payloads are transparent; a struct member of a parameter is resolved at the call sites
-            if v.d.get("adt") in (common.OPTION, common.RESULT, "std::ops::ControlFlow", None) and not (peel(v.kids[0]).kind == "param" and v.d.get("adt") is None and v.d.get("name") not in ("0",)):
+            if v.d.get("adt") in (common.OPTION, common.RESULT, "std::ops::ControlFlow"):
+                return self.s(fn, v.kids[0], env)
+            if v.d.get("adt") is None and peel(v.kids[0]).kind in ("variant",) and v.d.get("idx") == 0 and peel(v.kids[0]).d.get("variant") in ("Some", "Ok", "Continue"):
                 return self.s(fn, v.kids[0], env)
             base = peel(v.kids[0])
             path = [v.d.get("idx")]
             while base.kind == "field" and base.kids and base.d.get("adt") not in (common.OPTION, common.RESULT, "std::ops::ControlFlow"):
                 path.insert(0, base.d.get("idx"))
                 base = peel(base.kids[0])
-            if base.kind == "param":
-                return self.param(fn, base, path, env)
-            if base.kind == "agg" and path and path[0] is not None and path[0] < len(base.kids):
-                node = base
-                for i in path:
-                    node = peel(node)
-                    if node.kind == "agg" and i is not None and i < len(node.kids):
-                        node = node.kids[i]
-                    else:
-                        raise Unk("member of %s" % vstr(base, 2))
-                return self.s(fn, node, env)
-            raise Unk("member of %s" % vstr(base, 2))
+            return self.proj(fn, base, path, env)
         if v.kind == "mut" and len(v.kids) == 2 and v.kids[1].kind == "call":
             c = v.kids[1]
             nm = c.d["term"].get("name")
@@ -383,6 +374,40 @@ class Ev:
         if v.kind == "call":
             return self.call(fn, v, env)
         raise Unk(v.kind)
+
+    def proj(self, fn, base, path, env):
+        """the string held by member `path` of the tuple / struct value `base`"""
+        base = peel(base)
+        g = 0
+        while g < 8:
+            g += 1
+            if base.kind == "phi":
+                base = peel(self.pick(base))
+            elif base.kind in ("variant",) and base.kids:
+                base = peel(base.kids[0])
+            elif base.kind == "field" and base.kids and base.d.get("adt") in (common.OPTION, common.RESULT, "std::ops::ControlFlow"):
+                base = peel(base.kids[0])
+            elif base.kind == "agg" and base.d["agg"].get("variant") in ("Some", "Ok") and len(base.kids) == 1:
+                base = peel(base.kids[0])
+            elif base.kind == "call" and base.d["term"].get("name") in ("branch", "unwrap", "expect", "clone", "as_ref", "ok_or", "ok_or_else", "map_err") and base.kids and not base.d["term"].get("resolved_local"):
+                base = peel(base.kids[0])
+            else:
+                break
+        if not path:
+            return self.s(fn, base, env)
+        if base.kind == "param":
+            return self.param(fn, base, path, env)
+        if base.kind == "agg" and path[0] is not None and path[0] < len(base.kids) and base.d["agg"].get("kind") in ("tuple", "adt", "array"):
+            return self.proj(fn, base.kids[path[0]], path[1:], env)
+        if base.kind == "field" and base.kids:
+            inner = peel(base.kids[0])
+            return self.proj(fn, inner, [base.d.get("idx")] + list(path), env)
+        if base.kind == "call" and base.d["term"].get("resolved_local") and base.d["term"].get("resolved") in self.fx.fns:
+            callee = self.fx.fns[base.d["term"]["resolved"]]
+            bound = dict((i + 1, (fn, k)) for i, k in enumerate(base.kids))
+            sub = _Bound(self, callee, bound, env)
+            return sub.proj(callee, vals(callee).return_value(), path, dict(env))
+        raise Unk("member of %s" % vstr(base, 2))
 
     def fmt_args(self, fn, a, env):
         """Arguments value of a write!/format!"""
